@@ -126,6 +126,22 @@ pub fn sinkrun(a: &[Sexp]) -> Sexp {
                 let mut s = sink.clone();
                 results.push(res_n(w.write_ser(&mut s, &ser_value(n))));
             }
+            "so-typed" => {
+                // (so-typed N...) : SpecificSingleObjectWriter::<SerRec>::write_ref for each N on one sink (header, then the
+                // serializer's pieces); write_avro_datum_ref for the datum alone when N is odd
+                impl apache_avro::AvroSchema for SerRec {
+                    fn get_schema() -> apache_avro::Schema {
+                        apache_avro::Schema::parse_str(SER_SCHEMA).unwrap()
+                    }
+                }
+                let w = apache_avro::SpecificSingleObjectWriter::<SerRec>::new().unwrap();
+                let mut s = sink.clone();
+                for nx in p {
+                    let n = nx.as_u64().unwrap_or(0);
+                    results.push(res_n(w.write_ref(&ser_value(n), &mut s)));
+                    marks.push(sink.0.borrow().data.len());
+                }
+            }
             "datum-ser2" => {
                 let schema = apache_avro::Schema::parse_str(SER_OUT_SCHEMA).unwrap();
                 let n = p[0].as_u64().unwrap_or(0);
